@@ -574,6 +574,15 @@ func (ms *Modules) include(m *Module) error {
 		if im == nil {
 			return fmt.Errorf("no such submodule: %s", i.Name)
 		}
+		// A submodule can only be included by the module it belongs to and
+		// by that module's other submodules.
+		owner := m.Name
+		if m.BelongsTo != nil {
+			owner = m.BelongsTo.Name
+		}
+		if im.BelongsTo != nil && im.BelongsTo.Name != owner {
+			return fmt.Errorf("%s: submodule %s belongs to %s, not to %s", Source(i), im.Name, im.BelongsTo.Name, owner)
+		}
 		// Process the include statements in our included module.
 		if err := ms.include(im); err != nil {
 			return err
